@@ -86,8 +86,13 @@ def syscalls(ctx, work, exe):
     log = os.path.join(work, 'strace.log')
     n = 3 if ctx.quick else 40
     r = sh(['strace', '-f', '-o', log, exe, '--syscalls', str(n), str(ctx.seed)], timeout=1800)
-    if r.returncode != 0:
+    if r.returncode == 3:
         raise harness.HarnessError('strace run failed: %s' % r.stdout[-500:])
+    if r.returncode != 0:
+        # the driver died inside a library operation: a verdict, not a harness problem
+        ctx.violation('crash:syscall-run:%s' % (harness.classify_failure(r.returncode if r.returncode < 128 else 128 - r.returncode, r.stdout) or 'exit'),
+                      'the C20 driver failed while running every API family sequentially (rc=%s): %s' % (r.returncode, r.stdout[-600:]), {'mode': 'syscalls', 'seed': ctx.seed})
+        return
     lines = open(log).read().split('\n')
     try:
         b = next(i for i, l in enumerate(lines) if 'C20-MARK-BEGIN' in l)
@@ -137,7 +142,11 @@ def snapshot(ctx, work, cfgname, exe, objs):
     if r.returncode != 0:
         if tls:
             return          # already reported; the table of a build with TLS objects is not trustworthy
-        raise harness.HarnessError('snapshot run failed: %s' % r.stdout[-500:])
+        if r.returncode == 3:
+            raise harness.HarnessError('snapshot run failed: %s' % r.stdout[-500:])
+        ctx.violation('crash:snapshot-run:%s:%s' % (cfgname, harness.classify_failure(r.returncode if r.returncode < 128 else 128 - r.returncode, r.stdout) or 'exit'),
+                      'the C20 driver failed while running every API family sequentially on the %s build (rc=%s): %s' % (cfgname, r.returncode, r.stdout[-600:]), {'mode': 'snapshot', 'config': cfgname, 'seed': ctx.seed})
+        return
     input_changes(ctx, r.stdout, cfgname, 'snapshot run')
     for l in r.stdout.split('\n'):
         if l.startswith('CHANGED '):
